@@ -7,6 +7,8 @@
  R3 imports        the package and modules the generated header imports exist in the bundled runtime
  R4 coverage       every entity and every kind of defined type reaches its printer; supertypes are emitted in
                    declaration order (no reordering of the supertype list)
+ R5 one module     a file with one schema is printed in one pass: under the single-schema hypothesis no deferral statement of
+                   the dependency checkers is reachable (so the module is <schema>.py, not <schema>_1.py, <schema>_2.py ...)
 """
 import os
 import re
@@ -33,7 +35,10 @@ EXPLANATION = (
     "argument). (R3) the literals 'from <pkg>[.<mod>] import' of the generated header name a package directory and modules "
     "that exist under src/exp2python/python. (R4) three-valued exploration: for each of the 13 kinds x {plain, renaming} of a "
     "TYPE declaration SCOPEPrint can reach TYPEprint_descriptions on that type; ENTITYPrint is reached for every entity under "
-    "the processing mark only; the supertype list is not reordered before the base classes are printed. "
+    "the processing mark only; the supertype list is not reordered before the base classes are printed. (R5) with inSchema()/sameSchema() true and no object "
+    "marked CANTPROCESS, three-valued evaluation with path-refined value sets of the search_id marks shows that checkTypes/checkEnts/"
+    "checkItem/ENUMcanBeProcessed can neither mark an object CANTPROCESS nor the schema UNPROCESSED, hence print_schemas_separate "
+    "takes the suffix-0 branch and one module is written. "
     "Not decided: that the generated text is valid Python beyond identifiers, attribute/constructor argument order in detail, "
     "select members and enumeration items being complete.")
 
@@ -338,8 +343,14 @@ def r4_coverage(prog, res):
             "SUBTYPE OF (a, b) can come out as class c(b, a) with b's attributes first" % expr_str(sorts[0])[:50])
 
 
+def r5_single_pass(prog, res):
+    import singlepass
+    singlepass.check(prog, res, "R5.one_module_per_schema", "exp2python/src/multpass_python.c", "exp2python")
+
+
 def run(prog, res, tier):
     r1_decls(res, tier)
+    r5_single_pass(prog, res)
     r2_keywords(prog, res)
     r3_imports(prog, res)
     r4_coverage(prog, res)
